@@ -148,6 +148,9 @@ class StrExec:
             if isinstance(n.op, ast.Mult) and isinstance(a, list) and isinstance(b, int) and not isinstance(b, bool):
                 return list(a) * b
             return UNKNOWN
+        if isinstance(n, ast.Subscript) and isinstance(n.value, ast.Attribute) and n.value.attr == 'shape' and isinstance(n.slice, ast.Constant) \
+                and n.slice.value == 0 and isinstance(self.ev(n.value.value), list):
+            return len(self.ev(n.value.value))      # the length of a sequence that stands for a one-dimensional array
         if isinstance(n, ast.Subscript):
             if self.hole_for_subscript is not None:
                 h = self.hole_for_subscript(n, self)
@@ -207,6 +210,13 @@ class StrExec:
                     u = list(dict.fromkeys(v))
                     return sorted(u) if name == 'sorted' and not any(isinstance(x, Hole) for x in u) else (sorted(v) if name == 'sorted' else u)
                 return UNKNOWN
+            if isinstance(n.func, ast.Attribute) and n.func.attr == 'copy' and not n.args and not n.keywords:
+                v = self.ev(n.func.value)
+                if isinstance(v, (list, dict)) and not isinstance(v, Hole):
+                    return type(v)(v)
+                return UNKNOWN
+            if name in ('np.array', 'numpy.array', 'np.asarray', 'np.ascontiguousarray') and len(n.args) >= 1 and isinstance(self.ev(n.args[0]), list):
+                return list(self.ev(n.args[0]))     # an array made from a sequence: the same values
             if name in ('list', 'tuple') and len(n.args) == 1:
                 v = self.ev(n.args[0])
                 return list(v) if isinstance(v, (list, dict)) else UNKNOWN
@@ -664,7 +674,7 @@ class StrExec:
             return      # other stores into attributes / subscripts are irrelevant to the tracked strings
         if isinstance(s, ast.While) and not self.writes_tracked([s]) and not s.orelse:
             # a few passes while the test is known to hold; once it is not known, whatever the loop assigns is unknown
-            for _ in range(3):
+            for _ in range(12):
                 t = self.ev(s.test)
                 if t is UNKNOWN or isinstance(t, Hole):
                     break
